@@ -123,7 +123,7 @@ def parseElemToks : Nat → List String → Option (List (Nat × Str) × List St
   | _ + 1, _ => none
 
 mutual
-/-- operand tokens: `w,<hex>` | `p,<hex>` | `fw,<hex>,<hex>` | `fp,<hex>,<hex>` | `ps,<hex>,<sfx>` | `fps,<hex>,<hex>,<sfx>` (sfx `-`|`*`|`s<digits>`) | `r,<lo>,<hi>,<hex>,<hex>` | `fr,<hex>,<lo>,<hi>,<hex>,<hex>` | `s,<k0>,<k1>,<hex>,<n>, n×(<k>,<hex>)` | `fs,<hex>,<k0>,<k1>,<hex>,<n>,…` | `pe,<hex>,<sfx>` | `fpe,<hex>,<hex>,<sfx>` | `a` | `x,<hex>` | `el,<k>,<hex>` | `fel,<hex>,<k>,<hex>` | `b,<int digits>,<fraction digits or ->,Opd` | `n,<k>,Opd` | `g,<lead>,<occ>,<k>,<n>,Opd, n × (<op>,<occ>,<sp1>,<sp2>,Opd)` -/
+/-- operand tokens: `w,<hex>` | `p,<hex>` | `fw,<hex>,<hex>` | `fp,<hex>,<hex>` | `ps,<hex>,<sfx>` | `fps,<hex>,<hex>,<sfx>` (sfx `-`|`*`|`s<digits>`) | `r,<lo>,<hi>,<hex>,<hex>` | `fr,<hex>,<lo>,<hi>,<hex>,<hex>` | `s,<k0>,<k1>,<hex>,<n>, n×(<k>,<hex>)` | `fs,<hex>,<k0>,<k1>,<hex>,<n>,…` | `pe,<hex>,<sfx>` | `fpe,<hex>,<hex>,<sfx>` | `a` | `x,<hex>` | `el,<k>,<hex>` | `fel,<hex>,<k>,<hex>` | `b,<int digits>,<fraction digits or ->,Opd` | `n,<k>,Opd` | `fg,<hex>,` + the fields of `g` | `g,<lead>,<occ>,<k>,<n>,Opd, n × (<op>,<occ>,<sp1>,<sp2>,Opd)` -/
 def parseOpdToks : Nat → List String → Option (Opd × List String)
   | 0, _ => none
   | fuel + 1, toks =>
@@ -194,6 +194,16 @@ def parseOpdToks : Nat → List String → Option (Opd × List String)
       match k.toNat?, parseOpdToks fuel rest with
       | some k, some (o, rest1) => some (notOpd k o, rest1)
       | _, _ => none
+    | "fg" :: hf :: lead :: occ :: k :: n :: rest =>
+      match textOfHex hf, lead.toNat?, parseOccTok occ, k.toNat?, n.toNat? with
+      | some f, some lead, some occ, some k, some n =>
+        match parseOpdToks fuel rest with
+        | some (o, rest1) =>
+          match parseItemToks fuel n rest1 with
+          | some (more, rest2) => some (fieldGroupOpd f lead occ o more k, rest2)
+          | none => none
+        | none => none
+      | _, _, _, _, _ => none
     | "g" :: lead :: occ :: k :: n :: rest =>
       match lead.toNat?, parseOccTok occ, k.toNat?, n.toNat? with
       | some lead, some occ, some k, some n =>
